@@ -32,3 +32,9 @@ Qed.
 
 Definition is_err {A} (e : err) (r : res A) : bool :=
   match r with Err e' => err_eqb e e' | Ok _ => false end.
+
+Fixpoint sorted_strictb (l : list Z) : bool :=
+  match l with
+  | x :: l' => match l' with y :: _ => (x <? y) && sorted_strictb l' | [] => true end
+  | [] => true
+  end.
